@@ -1205,11 +1205,11 @@ class FunctionDefinition:
     def result(self) -> DataType:
         return DataType.union(sig.result for sig in self.overloads)
 
-    def check_arguments(self, args: Tuple[HplExpression]):
+    def check_arguments(self, args: Tuple[HplExpression]) -> FunctionSignature:
         types = tuple(arg.data_type for arg in args)
         for sig in self.overloads:
             if sig.accepts(types):
-                return
+                return sig
         expected = self.get_parameter_type_string()
         # error = f'arguments do not match {expected}'
         raise TypeError(f"function '{self.name}' expects {expected} but got {types}")
@@ -1443,6 +1443,12 @@ class HplFunctionCall(HplExpression):
 
     def __attrs_post_init__(self):
         object.__setattr__(self, 'data_type', self.function.result)
+        # narrow (copies of) the arguments to the parameter types of the accepted overload,
+        # as operators do with their operands
+        sig = self.function.check_arguments(self.arguments)
+        params = tuple(sig.parameters) + (sig.variadic,) * (len(self.arguments) - sig.arity)
+        args = tuple(arg.cast(t) for arg, t in zip(self.arguments, params))
+        object.__setattr__(self, 'arguments', args)
 
     @property
     def is_function_call(self) -> bool:
